@@ -12,6 +12,7 @@ mod payload;
 mod report;
 mod rng;
 mod seq;
+mod wake;
 
 use std::collections::HashMap;
 
@@ -187,6 +188,12 @@ fn main() {
             };
             shard.rule = "run = one concurrent scenario (seeded configuration, scripts and stall plan) followed by the quiescent probe, a seeded teardown and the offline checkers; distinct = hash(configuration shape, per-event thread/op/result and number of overlapping operations of other threads); non-trivial = family rule (steady/view: ring wrapped and a send overlapped a receive; wrap-slow-clone: wrapped and another operation completed while a clone/closure was in progress; last-sender: the end was reported and sends overlapped receives; add-stream: the call overlapped a send (shared: and a sibling receive); remove-stream: a send was refused before the removal; handle-churn: a clone/drop overlapped traffic of another thread; quiesce: send/receive overlap; teardown: ring wrapped)".to_string();
             conc::run_many(&p, &mut shard);
+            write_out(&args, &shard);
+        }
+        "wake" => {
+            let mut shard = report::Shard::new("mq-wake");
+            shard.rule = "run = one scenario in which consumers block in recv/recv_view/iterator and leave after their quota while producers send exactly the values needed and then stay alive idle; distinct = hash(configuration shape, per-consumer number of wait() entries and values received, result sequence); non-trivial = at least one consumer really entered Wait::wait and was woken to receive a value".to_string();
+            wake::run_many(args.u64("seed", 1), args.u64("runs", 100), args.u64("budget-ms", 0), args.flag("small"), &mut shard);
             write_out(&args, &shard);
         }
         _ => {
